@@ -299,6 +299,9 @@ var cmdTable = []cmdTmpl{
 	{Name: "reformat phyloxml", Args: []string{"reformat", "phyloxml", "-i", "{ts.nw}"}},
 	{Name: "acr", Args: []string{"acr", "-i", "{tr.nw}", "--states", "{states.txt}", "--out-states", "{out:acrstates.txt}", "--out-steps", "{out:acrsteps.txt}"}},
 	{Name: "acr downpass", Args: []string{"acr", "-i", "{t.nw}", "--states", "{states.txt}", "--algo", "downpass", "--out-states", "{out:acrstates.txt}"}},
+	{Name: "acr random-resolve", Args: []string{"acr", "-i", "{t.nw}", "--states", "{states.txt}", "--algo", "downpass", "--random-resolve", "--out-states", "{out:acrstates.txt}"}, Seeded: true},
+	{Name: "acr random-resolve deltran", Args: []string{"acr", "-i", "{tr.nw}", "--states", "{states.txt}", "--algo", "deltran", "--random-resolve"}, Seeded: true},
+	{Name: "asr random-resolve", Args: []string{"asr", "-i", "{tr.nw}", "-a", "{aln.fa}", "--random-resolve", "--log", "{out:asr.log}"}, Seeded: true},
 	{Name: "asr", Args: []string{"asr", "-i", "{tr.nw}", "-a", "{aln.fa}", "--log", "{out:asr.log}"}},
 	{Name: "asr protein", Args: []string{"asr", "-i", "{tr.nw}", "-a", "{alnp.fa}", "--algo", "downpass", "--log", "{out:asr.log}"}},
 	{Name: "annotate tree", Args: []string{"annotate", "-i", "{t.nw}", "-c", "{tr.nw}"}},
